@@ -215,21 +215,21 @@ fn send_case(acting: usize, k: usize, fixed: Option<[u8; 3]>) {
 }
 
 vharness! {
-    /// @prop C09,C05,C10 @tier thorough @mode fast @cost 4 @funcs Channel::send,Ref::branch_action,rt::branch,Execution::schedule,Synchronize::sync_store @bounds 3 threads, 1 empty channel, the other two threads symbolic (unrelated / blocked elsewhere / pending send / pending recv), all clock values, sender = thread 1
+    /// @prop C09,C05,C10 @tier experimental @mode fast @cost 4 @funcs Channel::send,Ref::branch_action,rt::branch,Execution::schedule,Synchronize::sync_store @bounds 3 threads, 1 empty channel, the other two threads symbolic (unrelated / blocked elsewhere / pending send / pending recv), all clock values, sender = thread 1
     /// send on an empty channel: count becomes 1, the message is stamped with the sender's view, every receiver blocked on the channel becomes runnable (whatever other threads are pending on it), nobody else changes.
     #[cfg_attr(kani, kani::unwind(8))]
     fn channel_send_empty_t1() { send_case(1, 0, None) }
 }
 
 vharness! {
-    /// @prop C09,C10 @tier thorough @mode fast @cost 3 @funcs Channel::send @bounds as channel_send_empty_t1 with one message already queued, sender = thread 0
+    /// @prop C09,C10 @tier experimental @mode fast @cost 3 @funcs Channel::send @bounds as channel_send_empty_t1 with one message already queued, sender = thread 0
     /// send on a non-empty channel appends behind the queued message; the stamp accumulates earlier sends (FIFO hand-over order).
     #[cfg_attr(kani, kani::unwind(8))]
     fn channel_send_nonempty_t0() { send_case(0, 1, None) }
 }
 
 vharness! {
-    /// @prop C09,C05 @tier thorough @mode fast @cost 3 @timeout 3600 @funcs Channel::send @bounds 3 threads, empty channel, sender = thread 1, thread 0 has a pending send on the channel, thread 2 is a receiver blocked on it (concrete roles), all clock values
+    /// @prop C09,C05 @tier experimental @mode fast @cost 3 @timeout 3600 @funcs Channel::send @bounds 3 threads, empty channel, sender = thread 1, thread 0 has a pending send on the channel, thread 2 is a receiver blocked on it (concrete roles), all clock values
     /// send on an empty channel wakes the blocked receiver even when a lower-numbered thread is also pending on the channel (as a sender).
     #[cfg_attr(kani, kani::unwind(8))]
     fn channel_send_wakes_receiver_behind_sender() { send_case(1, 0, Some([2, 0, 3])) }
